@@ -45,7 +45,6 @@ pub fn left_padding(number: i64, size: usize) -> String {
 pub fn format_number(number: f64, thousands_separator: String, decimal_separator: String, decimal_digits: u8, remove_fract_if_zero: bool, use_fract_rounding: bool) -> String {
     let divider      = 10_u32.pow(decimal_digits.into());
     let fract_number = do_divition((number * divider as f64).round(), divider as f64);
-    let trunc_part   = fract_number.trunc().abs().to_string();
 
     let formated_number = match use_fract_rounding {
         true => format!("{:.width$}", &number.abs(), width = decimal_digits.into()),
@@ -53,8 +52,10 @@ pub fn format_number(number: f64, thousands_separator: String, decimal_separator
     };
 
     let fract_part = fract_information(fract_number.fract());
-    let trunc_size = trunc_part.len();
-    let mut trunc_dot_index = 3 - (trunc_part.len() % 3);
+
+    /* The integer part is measured on the text that is printed, not on a second rendering of the number */
+    let trunc_size = formated_number.find('.').unwrap_or(formated_number.len());
+    let mut trunc_dot_index = 3 - (trunc_size % 3);
     let mut trunc_formated = String::new();
 
 
